@@ -110,13 +110,15 @@ class ProgGen:
     def params(self):
         """random parameter list: returns (signature text, names, call-args template builder)"""
         r = self.r
-        shape = r.choice(["a", "a, b", "a, b=None", "a, /, b", "a, *, k", "a, *args", "a, **kw", "a, b=1, *args, k=None, **kw", ""])
+        shape = r.choice(["a", "a, b", "a, b=None", "a, /, b", "a, *, k", "a, *args", "a, **kw", "a, b=1, *args, k=None, **kw", "",
+                          "a, /, *args", "a, /, b=None, **kw"])
         names = {"a": ["a"], "a, b": ["a", "b"], "a, b=None": ["a", "b"], "a, /, b": ["a", "b"], "a, *, k": ["a", "k"],
                  "a, *args": ["a", "args"], "a, **kw": ["a", "kw"], "a, b=1, *args, k=None, **kw": ["a", "b", "k", "args", "kw"],
-                 "": []}[shape]
+                 "": [], "a, /, *args": ["a", "args"], "a, /, b=None, **kw": ["a", "b", "kw"]}[shape]
         calls = {"a": ["{0}"], "a, b": ["{0}, {1}", "{0}, b={1}"], "a, b=None": ["{0}", "{0}, {1}"], "a, /, b": ["{0}, {1}", "{0}, b={1}"],
                  "a, *, k": ["{0}, k={1}"], "a, *args": ["{0}", "{0}, {1}, {2}"], "a, **kw": ["{0}", "{0}, x={1}, y={2}"],
-                 "a, b=1, *args, k=None, **kw": ["{0}", "{0}, {1}, {2}, k={1}, z={0}", "{0}, k={2}"], "": [""]}[shape]
+                 "a, b=1, *args, k=None, **kw": ["{0}", "{0}, {1}, {2}, k={1}, z={0}", "{0}, k={2}"], "": [""],
+                 "a, /, *args": ["{0}", "{0}, {1}, {2}"], "a, /, b=None, **kw": ["{0}", "{0}, {1}, x={2}"]}[shape]
         return shape, names, calls
 
     def argtext(self, calls):
@@ -295,6 +297,39 @@ class ProgGen:
             calls = self.def_gen(f"g{i}")
             self.w(f"R.reg(g{i})")
             self.gens.append((f"g{i}", calls))
+            self.w("")
+        if r.random() < 0.35:
+            # a generator decorated with types.coroutine: CO_ITERABLE_COROUTINE, but its yields are real yields
+            self.w("import types as _types")
+            self.w("@_types.coroutine")
+            self.w("def tco(a):")
+            self.w("    R.enter(['a'])")
+            self.w(f"    _v = {self.v()}")
+            self.w("    R.act('yield', _v)")
+            self.w("    _s = yield _v")
+            self.w("    R.act('yield', a)")
+            self.w("    _s = yield a")
+            self.w("    R.act('return', None)")
+            self.w("R.reg(tco)")
+            self.gens.append(("tco", ["{0}"]))
+            self.w("")
+        if r.random() < 0.35:
+            # the same qualified name for two different code objects: a helper defined differently in two branches,
+            # both variants run in one session (the first one through an alias)
+            self.w("def variant(a):")
+            self.w("    R.enter(['a'])")
+            self.w("    R.act('return', 1)")
+            self.w("    return 1")
+            self.w("R.reg(variant)")
+            self.w("variant_old = variant")
+            self.w("def variant(a, b=None):")
+            self.w("    R.enter(['a', 'b'])")
+            self.w("    _v = (a, b)")
+            self.w("    R.act('return', _v)")
+            self.w("    return _v")
+            self.w("R.reg(variant)")
+            self.plain.append(("variant_old", ["{0}"]))
+            self.plain.append(("variant", ["{0}", "{0}, {1}"]))
             self.w("")
         for i in range(r.choice([0, 1, 2])):
             calls = self.def_coro(f"co{i}")
